@@ -1573,6 +1573,28 @@ package ast
 //@   trusted_ensures s == fn_GetSnapshot_0(e)
 //@   checks[C20] linear: len(s) <= 8 + snl(e.Expression)
 //@   checks[C07] format: s == "MAS(" + ite(e.Expression != nil, fn_GetSnapshot_0(e.Expression), "") + ")"
+// the flat scope/statement snapshots: same size clause (each child once)
+//@ func (e *WhenScope) GetSnapshot() (s)
+//@   serves C20
+//@   opt strite=1
+//@   trusted_nopanic
+//@   modifies
+//@   trusted_ensures s == fn_GetSnapshot_0(e)
+//@   checks[C20] linear: len(s) <= 16 + snl(e.Expression)
+//@ func (e *ThenExpression) GetSnapshot() (s)
+//@   serves C20
+//@   opt strite=1
+//@   trusted_nopanic
+//@   modifies
+//@   trusted_ensures s == fn_GetSnapshot_0(e)
+//@   checks[C20] linear: len(s) <= 16 + snl(e.Assignment) + snl(e.ExpressionAtom)
+//@ func (e *Assignment) GetSnapshot() (s)
+//@   serves C20
+//@   opt strite=1
+//@   trusted_nopanic
+//@   modifies
+//@   trusted_ensures s == fn_GetSnapshot_0(e)
+//@   checks[C20] linear: len(s) <= 24 + len(fn_GetSnapshot_0(e.Variable)) + len(fn_GetSnapshot_0(e.Expression))
 // argument snapshots joined by "," (alSnap: the documented join, defined by its three unfolding equations)
 //@ extern pure func alSnap(args []*Expression, n int) string
 //@ axiom od_alsnap0: forall a []*Expression {alSnap(a, 0)} :: alSnap(a, 0) == ""
